@@ -276,14 +276,14 @@ pub fn run(ctx: &Ctx) -> Report {
     });
     let mut rep = Report::new(
         st,
-        "jobs = (version x level x forced mode|auto) x boundary lengths {0,1,cap(v-1)+1,cap-1,cap} with forced and automatic version + no level given with the version forced at the capacities (-1, +0, +1) of levels H, M and Q in that version, mask rotating over 0..7 and automatic, payload generator rotating over 13 generators (thorough: every length for v<=6, random lengths above) + every entry of a dictionary of real-world prefixes and magic byte sequences (URL schemes in both cases, WIFI:/vCard/MECARD, byte order marks, GS1/AIM escapes, control bytes, multi-byte text) alone and with tails + crafted byte payloads (data area equal to a mask pattern / uniform / stripes; blocks of padding pattern / zeros / identical blocks) + inputs outside the forced mode's alphabet (a symbol, if returned, must still decode to the input); each execution builds through QRBuilder and decodes the module values with the oracle reference decoder; distinct key = (mode,level,version,mask options, len, payload hash); non-trivial = non-empty payload",
+        "jobs = (version x level x forced mode|auto) x boundary lengths {0,1,cap(v-1)+1,cap-1,cap} with forced and automatic version + no level given with the version forced at the capacities (-1, +0, +1) of levels H, M and Q in that version, mask rotating over 0..7 and automatic, payload generator rotating over 17 generators (thorough: every length for v<=6, random lengths above) + every entry of a dictionary of real-world prefixes and magic byte sequences (URL schemes in both cases, WIFI:/vCard/MECARD, byte order marks, GS1/AIM escapes, control bytes, multi-byte text) alone and with tails + crafted byte payloads (data area equal to a mask pattern / uniform / stripes; blocks of padding pattern / zeros / identical blocks) + inputs outside the forced mode's alphabet (a symbol, if returned, must still decode to the input); each execution builds through QRBuilder and decodes the module values with the oracle reference decoder; distinct key = (mode,level,version,mask options, len, payload hash); non-trivial = non-empty payload",
     );
     rep.expected_sets = vec![("version_level", 160), ("version_mask", 320), ("class_mode", 9), ("forced_bits", 16)];
     rep.required_sets = vec![("version_level", 160), ("version_mask", 320), ("class_mode", 9)];
     rep.min_evaluations = 3000;
     rep.assumptions = vec![
         "oracle decoder = my reading of ISO/IEC 18004:2015, validated each run against symbols from the independent qrcode crate".into(),
-        "payload contents are sampled (13 generators + dictionary + crafted), configurations at the listed boundaries are enumerated".into(),
+        "payload contents are sampled (17 generators + dictionary + crafted), configurations at the listed boundaries are enumerated".into(),
     ];
     rep
 }
